@@ -92,6 +92,9 @@ class ConcreteSym:
     def bool(self, name: str = "f") -> bool:
         return bool(self.int(0, 1, name))
 
+    def pick(self, options, name: str = "pick"):
+        return options[self.choice(len(options), name)]
+
     def assume(self, cond) -> None:
         if not cond:
             raise Precondition()
@@ -171,6 +174,15 @@ class SymbolicSym:
 
     def bool(self, name: str = "f"):
         return self.int(0, 1, name) == 1
+
+    def pick(self, options, name: str = "pick"):
+        """one of the concrete `options`, chosen by the solver; the returned value is CONCRETE on each path (forks),
+        so it may safely flow into C code such as asyncio's timer heap"""
+        c = self.choice(len(options), name)
+        for i, v in enumerate(options):
+            if c == i:
+                return v
+        raise AssertionError("unreachable")
 
     def assume(self, cond) -> None:
         if not cond:
